@@ -507,3 +507,30 @@ func execOp(store queue.Store, clk *Clock, book *leaseBook, op Op) (Event, error
 	}
 	return nil, fmt.Errorf("unknown op %q", op.Op)
 }
+
+
+// EmitRaw writes an event as is.
+func (r *Runner) EmitRaw(ev Event) error { return r.emit(ev) }
+
+// EmitWithPost completes an event with the clock, the dump, ranks and volatile state, and writes it.
+func (r *Runner) EmitWithPost(ev Event, d Dumper, clk *Clock) error {
+	post, rank, vol, err := r.post(d)
+	if err != nil {
+		return err
+	}
+	ev["now"] = clk.Tick()
+	ev["post"] = post
+	ev["rank"] = rank
+	ev["vol"] = vol
+	return r.emit(ev)
+}
+
+// LeaseBook is exported for other layers.
+type LeaseBook = leaseBook
+
+func NewLeaseBook() *LeaseBook { return &leaseBook{epochs: map[string][]string{}} }
+func (b *leaseBook) Add(msg, lease string) { b.epochs[msg] = append(b.epochs[msg], lease) }
+func (b *leaseBook) Resolve(l LeaseRef) string { return b.resolve(l) }
+
+// ExecOp executes one store-level operation and returns its event (without post-state).
+func ExecOp(store queue.Store, clk *Clock, book *LeaseBook, op Op) (Event, error) { return execOp(store, clk, book, op) }
